@@ -1227,7 +1227,7 @@ func runC19(c *Ctx) {
 	}
 	nGen := 100
 	if c.Thorough {
-		nGen = 1000
+		nGen = 750
 	}
 	if os.Getenv("C19_ONLY_CORPUS") != "" {
 		nGen = 0
@@ -1330,7 +1330,7 @@ func runC19(c *Ctx) {
 					if pl.Edit.Op == "renameCallable" {
 						r.hist("theorem-instance:rename wf=" + f["wf"] + " fresh=" + f["fresh"])
 						if f["wf"] == "true" && f["fresh"] == "true" && (f["rt"] != "true" || f["cg"] != "true") {
-							bad = "rename_rename_id / rename_callgraph_partial"
+							bad = "rename_rename_id_partial / rename_callgraph_partial"
 						}
 					} else if pl.Edit.Op == "removeOutput" {
 						r.hist("theorem-instance:removeOutput unreferenced=" + f["unref"])
@@ -1506,9 +1506,9 @@ func runC19(c *Ctx) {
 	}
 	c19RunFiles(c, gens, func() string { freshN++; return fmt.Sprintf("ZZ_NEW%d", freshN) })
 	if c.Drv != nil && os.Getenv("C19_ONLY_CORPUS") == "" {
-		nx := 120
+		nx := 100
 		if c.Thorough {
-			nx = 300
+			nx = 150
 		}
 		c19GraphExtra(c, nx)
 	}
